@@ -8,7 +8,7 @@ from props import toycipher
 from props import bf3common as B
 
 GEN_DEPS = ("Consts.v", "gen_consts")
-MODEL_TARGETS = ["Model/Bf3.vo", "Model/Bf3Eq.vo", "Model/Cbc.vo"]
+MODEL_TARGETS = ["Model/Bf3.vo", "Model/Bf3Eq.vo", "Model/Cbc.vo", "Model/Aes.vo"]
 IMPORTS = B.IMPORTS
 
 
@@ -87,6 +87,46 @@ def correspondence(ctx):
     ctx.traces += len(exprs)
     for i in bad[:10]:
         ctx.broken("correspondence: Model.Bf3 differs from the implementation on %s" % descr[i][0],
+                   repr(descr[i])[:1500])
+    correspondence_real_aes(ctx)
+
+
+AES_COQ = """From Bec2 Require Import Model.Aes.
+Definition aes_enc (k : bytes) (iv : option bytes) (d : bytes) := adapter_encrypt aes_E k iv d.
+Definition aes_dec (k : bytes) (iv : option bytes) (d : bytes) := adapter_decrypt aes_D k iv d.
+Definition aes_mac (k : bytes) (iv : option bytes) (d : bytes) := adapter_mac aes_E k iv d.
+"""
+
+
+def correspondence_real_aes(ctx):
+    """the same writer/reader comparison with the REAL plug-in (pyaes) against the model
+    instantiated with the pyaes model of C16 (aes_E / aes_D): no toy cipher in between"""
+    r = ctx.rng
+    exprs, descr = [], []
+    for i in range(ctx.budget(25, 400)):
+        cm, comps = B.gen_file(r, enc_prob=0.25, max_comps=3)
+        comps = [c for c in comps if len(c[1]) <= 300]
+        key = B.rkey(r)
+        f = B.build(cm, comps)
+        w = B.impl_write(f, key)
+        qf = B.qfile_new(cm, comps)
+        exprs.append("res_eqb str_eqb (write_file aes_enc aes_mac %s %s) %s" % (qf, qbytes(key), qres(w, B.qstr)))
+        descr.append(("write_file[real AES]", cm, comps, key))
+        ctx.case(("aes-write", repr(cm), repr(comps), key), trivial=not comps)
+        if w[0] == "ok":
+            k2 = key if r.random() < 0.8 else bytes([key[0] ^ 1]) + key[1:]
+            rd = B.impl_read(w[1], True, k2)
+            exprs.append("res_eqb bf3_eqb (read_file aes_dec aes_mac %s true %s) %s" % (
+                B.qstr(w[1]), qbytes(k2), qres(rd, B.qbf3_obj)))
+            descr.append(("read_file[real AES]", w[1], k2))
+            ctx.case(("aes-read", w[1], k2), trivial=not comps)
+    bad = ctx.coq_eval("c01aes", IMPORTS, exprs, preamble=AES_COQ, shard=10)
+    if bad is None:
+        return
+    ctx.traces += len(exprs)
+    ctx.extra["real_aes_correspondence_cases"] = len(exprs)
+    for i in bad[:10]:
+        ctx.broken("correspondence: Model.Bf3 over the pyaes model differs from the implementation with the real plug-in on %s" % descr[i][0],
                    repr(descr[i])[:1500])
 
 
